@@ -97,6 +97,7 @@ package stage
 //@   modifies nothing
 //@   on return assert new-version-starts-empty: err == nil && !(lastret(readLocalCompanion, 0) != nil && old(lastret(readLocalCompanion, 0).Hash) == file.Hash) ==> len(cmp.Parts) == 0 && cmp.Size == file.Size && cmp.Name == file.Name && cmp.Renamed == file.Renamed
 //@   on return assert same-version-keeps-record: err == nil && lastret(readLocalCompanion, 0) != nil && lastret(readLocalCompanion, 0).Hash == file.Hash ==> cmp == lastret(readLocalCompanion, 0)
+//@   before call (*Stage).fromCache assert delivery-record-reaches-back-to-the-part: called((*Stage).buildCache) && lastarg((*Stage).buildCache, 1) == when && when <= lastret(sts.Binned.GetFileTime, 0) && ncalls((*Stage).buildCache) == 1
 //@   before call readLocalCompanion assert reads-own-companion: arg0 == path
 
 //@ func writeCompanion trusted
@@ -177,8 +178,12 @@ package stage
 //@   modifies nothing
 //@ func (*Stage).isWaiting trusted
 //@   modifies nothing
-//@ func (*Stage).toWait
+// a file that is parked gets its re-check timer armed on every call (the look-ups for a predecessor
+// that is known only from the log reach back one day further each time) and is in the wait map
+//@ func (*Stage).toWait frameassumed
 //@   modifies fields(next), entries(s.wait), allof(finalFile)
+//@   on return assert re-check-timer-is-armed: howLong > 0 ==> called(time.AfterFunc) && lastarg(time.AfterFunc, 0) == howLong && next.wait == lastret(time.AfterFunc, 0)
+//@   on return assert parked: has(s.wait, prevPath)
 
 //@ func (*Stage).isFileReady
 //@   on return assert ready-needs-delivered-predecessor: result ==> old(file.prev) == "" || old(file.prev) == old(file.name) || !(prevState == stateUnknown || prevState == stateReceived || prevState == stateFailed || prevState == stateValidated) || (prevState == stateUnknown && called((*Stage).hasPathLock) && !lastret((*Stage).hasPathLock, 0) && called(sts.ReceiveLogger.WasReceived) && lastret(sts.ReceiveLogger.WasReceived, 0) && lastarg(sts.ReceiveLogger.WasReceived, 1) == old(file.prev))
